@@ -9,7 +9,7 @@ import (
 	"golang.org/x/tools/go/ssa"
 )
 
-// ---------- E5 error discipline ----------
+// ---------- E8 error discipline ----------
 //
 // Rule template: inside the packages a property is anchored in, the error result of a call never
 // turns into a success of the enclosing function, except at the listed (package, callee) pairs and
@@ -121,7 +121,7 @@ func (p *Program) errorFate(f *ssa.Function, call *ssa.Call, allow []string) (st
 
 	for _, d := range p.errDescs(errVal) {
 		for _, a := range allow {
-			if strings.Contains(a, "$E") {
+			if a != "site" && a != "dropped" {
 				globs = append(globs, strings.ReplaceAll(a, "$E", d))
 			}
 		}
@@ -133,10 +133,23 @@ func (p *Program) errorFate(f *ssa.Function, call *ssa.Call, allow []string) (st
 	}
 
 	errDesc := p.Desc(errVal)
+	homes := map[ssa.Value]bool{} // locals the error is assigned to
+
+	for _, r := range *errVal.Referrers() {
+		if st, ok := r.(*ssa.Store); ok && st.Val == errVal {
+			homes[st.Addr] = true
+		}
+	}
+
 	sameErr := func(v ssa.Value) bool {
 		v = stripIface(v)
+		if v == errVal || Fwd(v) == errVal || p.Desc(v) == errDesc {
+			return true
+		}
 
-		return v == errVal || Fwd(v) == errVal || p.Desc(v) == errDesc
+		ld, ok := v.(*ssa.UnOp)
+
+		return ok && ld.Op == token.MUL && homes[ld.X]
 	}
 
 	nodes := func(in ssa.Instruction) bool {
@@ -373,4 +386,150 @@ func DumpCensus(p *Program) {
 	for _, s := range SwallowCensus(p, "pkg/") {
 		fmt.Printf("%-9s %s <- %s  @%s\n    %s\n", s.Kind, s.Func, s.Callee, s.Pos, s.Witness)
 	}
+}
+
+// ---------- failure atomicity census ----------
+
+// receiverWrite selects instructions that change state reachable from the receiver (or a package
+// global): map updates / deletes on maps loaded from fields, stores to fields of non-local structs.
+func (p *Program) sharedWrite(f *ssa.Function) InstrPred {
+	isShared := func(v ssa.Value) bool {
+		d := p.Desc(v)
+
+		return strings.Contains(d, "param#0") || strings.Contains(d, "global:")
+	}
+
+	return func(in ssa.Instruction) bool {
+		switch x := in.(type) {
+		case *ssa.MapUpdate:
+			return isShared(x.Map)
+		case *ssa.Call:
+			if b, ok := x.Call.Value.(*ssa.Builtin); ok && b.Name() == "delete" {
+				return isShared(x.Call.Args[0])
+			}
+		case *ssa.Store:
+			if fa, ok := x.Addr.(*ssa.FieldAddr); ok {
+				return isShared(fa.X)
+			}
+		}
+
+		return false
+	}
+}
+
+// DumpAtomicity prints, per function with an error result, the shared writes after which a failure
+// return is reachable.
+func DumpAtomicity(p *Program, prefixes ...string) {
+	var rels []string
+
+	for path := range p.SSAPkg {
+		rel := strings.TrimPrefix(path, Mod)
+		for _, pre := range prefixes {
+			if strings.HasPrefix(rel, pre) && !strings.Contains(rel, "conformance") {
+				rels = append(rels, rel)
+			}
+		}
+	}
+
+	sort.Strings(rels)
+
+	for _, rel := range rels {
+		for _, f := range p.PkgFuncs(rel) {
+			n := f.Signature.Results().Len()
+			if n == 0 || !isErrorType(f.Signature.Results().At(n-1).Type()) || f.Signature.Recv() == nil && f.Parent() == nil {
+				continue
+			}
+
+			w := p.sharedWrite(f)
+
+			for _, in := range Find(f, w) {
+				this := func(i ssa.Instruction) bool { return i == in }
+				if found, path := p.Reach(After(f, this), ReturnsNonNil(n-1), CutSpec{}); found {
+					fmt.Printf("%s :: %s @%s\n    %s\n", FuncName(f), p.Pos(in.Pos()), in.String(), strings.Join(path, " "))
+				}
+			}
+		}
+	}
+}
+
+// FailureAtomicity: in the given packages, no method with an error result changes state reachable
+// from its receiver (map update / delete on a field's map, store to a receiver field) and can still
+// fail afterwards — a rejected operation leaves no trace. `allowed` lists functions (glob on the
+// function name → reason) where a write before a fallible step is part of the design. control is a
+// package where such writes are known to exist on the pinned tree: the detector must find them on
+// every run, otherwise the zero in the other packages means nothing.
+func (c *Ctx) FailureAtomicity(rule string, pkgs []string, allowed map[string]string, control string, minControl int) {
+	p := c.P
+
+	sites := func(rel string, report bool) int {
+		n := 0
+
+		for _, f := range p.PkgFuncs(rel) {
+			nr := f.Signature.Results().Len()
+			if nr == 0 || !isErrorType(f.Signature.Results().At(nr-1).Type()) || f.Signature.Recv() == nil && f.Parent() == nil {
+				continue
+			}
+
+			if report {
+				c.Touch(f)
+			}
+
+			why := ""
+
+			for g, r := range allowed {
+				if Glob(g, FuncName(f)) {
+					why = r
+				}
+			}
+
+			for _, in := range Find(f, p.sharedWrite(f)) {
+				this := func(i ssa.Instruction) bool { return i == in }
+
+				found, path := p.Reach(After(f, this), ReturnsNonNil(nr-1), CutSpec{})
+				if !found {
+					continue
+				}
+
+				n++
+
+				if !report {
+					continue
+				}
+
+				if why != "" {
+					c.OK(rule, FuncName(f)+" :: state written before a fallible step (listed)", in.Pos(), why)
+				} else {
+					c.Bad(rule, FuncName(f)+" :: a failed call leaves no trace", in.Pos(), "state reachable from the receiver is written and the function can still fail afterwards: "+strings.Join(path, " "))
+				}
+			}
+		}
+
+		return n
+	}
+
+	for _, rel := range pkgs {
+		if len(p.PkgFuncs(rel)) == 0 {
+			c.Unknown(rule, rel+" :: failure atomicity", token.NoPos, "anchor-unresolved: package has no functions")
+
+			continue
+		}
+
+		before := len(c.Obls)
+		sites(rel, true)
+
+		bad := false
+
+		for _, o := range c.Obls[before:] {
+			if o.Status != Discharged {
+				bad = true
+			}
+		}
+
+		if !bad {
+			c.OK(rule, rel+" :: no method writes receiver state and fails afterwards (other than listed)", token.NoPos, "every method with an error result examined")
+		}
+	}
+
+	n := sites(control, false)
+	c.Check(n >= minControl, rule, "positive control: the detector finds the known write-then-fail sites of "+control, token.NoPos, fmt.Sprintf("%d sites", n), fmt.Sprintf("only %d sites found, expected >= %d: the detector no longer sees such writes", n, minControl))
 }
